@@ -65,6 +65,14 @@ def draw_call(rng):
     if tk in ("path", "group"):
         rk = "none"
     c["region"] = rk
+    c["pairs"] = rng.choice(["single", "single", "same_source_two_targets", "two_sources"]) if c["api"] == "store" and tk == "path" else "single"
+    return complete_target_geometry(c, rng)
+
+
+def complete_target_geometry(c, rng):
+    tk, rk, shape, src_chunks, nd = c["target"], c["region"], c["shape"], c["src_chunks"], len(c["shape"])
+    if tk not in ("path", "group") and c.get("pairs", "single") != "single":
+        c["pairs"] = "single"
     # geometry of an existing target
     if tk.startswith("existing") or tk == "sharded":
         if rk in ("aligned", "misaligned", "wrong_shape"):
@@ -105,8 +113,6 @@ def draw_call(rng):
                 c["open_ends"] = rng.random() < 0.3
         elif rk == "full":
             c["region_slices"] = [[None, None] for _ in shape]
-    # pair lists
-    c["pairs"] = rng.choice(["single", "single", "same_source_two_targets", "two_sources"]) if c["api"] == "store" and tk == "path" else "single"
     return c
 
 
@@ -231,7 +237,7 @@ def run_call(c, workdir, res, monitors_c05=False):
     must_reject = c["region"] in ("misaligned", "wrong_shape") and any(
         (a is not None and a % u != 0) or (b is not None and b % u != 0 and b != t)
         for (a, b), u, t in zip(c.get("region_slices", []), c.get("tshards", c.get("tchunks", [])), c.get("tshape", []))
-    ) or c["region"] == "wrong_shape"
+    )
     if err is not None:
         res["counters"]["rejected"] += 1
         _rc.bump(res["hist"]["exceptions"], f"{c['target']}/{c['region']}:{err['type']}")
@@ -243,8 +249,10 @@ def run_call(c, workdir, res, monitors_c05=False):
         res["nontrivial"].append(gen.rhash(c))
         return viols, None
     res["counters"]["accepted"] += 1
-    if c["region"] == "wrong_shape":
-        V("wrong-shape-region-accepted", "a region whose shape differs from the source's was accepted")
+    if region is not None and c.get("tshape"):
+        rshape = tuple(len(range(*sl.indices(t))) for sl, t in zip(region, c["tshape"]))
+        if rshape != tuple(c["shape"]):
+            V("wrong-shape-region-accepted", f"a region of shape {rshape} was accepted for a source of shape {tuple(c['shape'])}")
     # read back every target and compare with the paste model
     for k, (tobj, reader, before) in enumerate(targets):
         try:
